@@ -9,7 +9,6 @@ CONSTANTS
   StatsThread = TRUE
   OrReacts = TRUE
   EnvLite = TRUE
-  AsIs_Spin = FALSE
   Mut = "none"
 SPECIFICATION Spec
 INVARIANTS TypeOK DrainOnExit
